@@ -452,4 +452,37 @@ theorem pickBest_order_dependent_witness :
     pickBest {} [("ns1", a), ("ns2", b)] "ns3" = "ns1" ∧ pickBest {} [("ns2", b), ("ns1", a)] "ns3" = "ns2" := by
   decide +kernel
 
+/-! ### which Sidecar applies -/
+
+theorem mem_sortSidecars (l : List Sidecar) (x : Sidecar) : x ∈ sortSidecars l ↔ x ∈ l := by
+  simp only [sortSidecars, List.mem_append, List.mem_filter, mem_isort]
+  constructor
+  · rintro (h | h) <;> exact h.1
+  · intro h
+    cases hs : x.selector with
+    | none => exact Or.inr ⟨h, by simp⟩
+    | some v => exact Or.inl ⟨h, by simp⟩
+
+/-- **pickSidecar_sound**: the Sidecar resource applied to a proxy is a resource of the proxy's own
+    namespace whose workloadSelector (if any) matches the proxy's labels, or else the selector-less
+    Sidecar of the root namespace; a Sidecar of any other namespace never shapes the proxy. -/
+theorem pickSidecar_sound (m : Mesh) (scs : List Sidecar) (ns : String) (lbl : List (String × String)) (c : Sidecar)
+    (h : pickSidecar m scs ns lbl = some c) :
+    c ∈ scs ∧ ((c.ns = ns ∧ ∀ sel, c.selector = some sel → labelsSubset sel lbl = true) ∨
+               (c.ns = m.rootNs ∧ c.selector = none)) := by
+  unfold pickSidecar at h
+  split at h
+  · rename_i x hf
+    cases h
+    have hm := List.mem_filter.mp (List.mem_of_find?_eq_some hf)
+    have hp := List.find?_some hf
+    refine ⟨(mem_sortSidecars scs c).mp hm.1, Or.inl ⟨by simpa using hm.2, ?_⟩⟩
+    intro sel hsel
+    simpa [hsel] using hp
+  · unfold rootSidecar at h
+    have hm := List.mem_of_find?_eq_some h
+    have hp := List.find?_some h
+    simp only [Bool.and_eq_true, beq_iff_eq, Option.isNone_iff_eq_none] at hp
+    exact ⟨(mem_sortSidecars scs c).mp hm, Or.inr hp⟩
+
 end IstioModel.C07
